@@ -342,7 +342,7 @@ func tagCompareLoops(r *Report, rt *Routine, flow *FlowResult, a *xAnalysis, ver
 		type dep [8]uint16 // per byte: bit i = x_i, bit 8+i = y_i
 		regs := map[string]dep{}
 		temps := map[string]bool{} // registers (re)loaded in every iteration
-		var mem dep // the scratch word at 0(y)
+		var mem dep                // the scratch word at 0(y)
 		memValid := false
 		width := 0
 		step := map[string]int64{}
@@ -540,7 +540,9 @@ func lidxFuncs(r *Report, p *Prog, arch string, names []string) {
 			continue
 		}
 		env := NewLinEnv(p, fn)
-		env.lenSum = func(c2 *ssa.Function, call2 *ssa.Call, en *LinEnv) ([]*Lin, bool) { return retLenSummary(p, c2, 0, call2, en, 0) }
+		env.lenSum = func(c2 *ssa.Function, call2 *ssa.Call, en *LinEnv) ([]*Lin, bool) {
+			return retLenSummary(p, c2, 0, call2, en, 0)
+		}
 		bad := 0
 		for _, b := range fn.Blocks {
 			facts := env.FactsAt(b)
